@@ -12,7 +12,7 @@ func init() {
 	register(&propertyDef{
 		id:    "C03",
 		title: "the run result is the one the workflow's declarative meaning prescribes",
-		rules: []ruleFunc{c03R1, c03R2, c03R3, c03R4, c03R5, c03R6, c03R7, c03R8},
+		rules: []ruleFunc{c03R1, c03R2, c03R3, c03R4, c03R5, c03R6, c03R7, c03R8, c03R9, c03R10},
 		decided: "necessary conditions only: unresolvable nodes never produce an output or a stage input (R1); the returned id and data come from the same workflow-output node (R2); when a stage output is produced every alternative output of that stage is marked unresolvable, the only skip being the produced one (R3); " +
 			"Execute has exactly one success return, guarded by the output-schema lookup and validation, all other returns carry an error and empty results (R4); the no-output-possible error is raised (R5 = C01.R6). Every result-less return carries a provably non-nil error (R4). Shared: a stage is reported done only after its input was received (R8 = C12.R12); every reference is wired into the DAG (R6 = C02.R2) and stage outputs are published before notification in one critical section (R7 = C02.R4).",
 		notDecided: "which output wins among several producible ones, equality of the data with a reference evaluation of the expressions, unresolvability propagation inside dgraph (these need an interpreter and runs).",
